@@ -881,6 +881,29 @@ theorem inOK_of_srel {f : KwFn} {k : Str} {v sub : Json} {q : Option PathElem}
         simpa [ptrGet] using hp
       | _ => simp [ptrGet] at hp
 
+theorem refsProper_ptrGet {i x : Json} {ps : List PathElem} (hw : refsProper i = true)
+    (h : ptrGet i ps = some x) : refsProper x = true := by
+  induction ps generalizing i with
+  | nil => simp [ptrGet] at h; subst h; exact hw
+  | cons p ps ih =>
+    cases p with
+    | key k =>
+      cases i with
+      | obj kvs => ?_
+      | _ => simp [ptrGet] at h
+      rw [ptrGet] at h
+      obtain ⟨y, hy, h2⟩ := Option.bind_eq_some_iff.mp h
+      simp only [refsProper] at hw
+      exact ih (refsProper_lookup hw hy) h2
+    | idx n =>
+      cases i with
+      | arr xs => ?_
+      | _ => simp [ptrGet] at h
+      rw [ptrGet] at h
+      obtain ⟨y, hy, h2⟩ := Option.bind_eq_some_iff.mp h
+      simp only [refsProper] at hw
+      exact ih (refsProper_getElem hw hy) h2
+
 theorem stamp_schemaPath_ref (v inst schema : Json) (e : Err) :
     (stamp (skey "$ref") v inst schema e).schemaPath = e.schemaPath := by
   obtain ⟨msg, info, path, sp, ctx, c⟩ := e
@@ -889,16 +912,18 @@ theorem stamp_schemaPath_ref (v inst schema : Json) (e : Err) :
 
 theorem schemaR_of_prov {rec : Rec} {cfg : Cfg} {f : KwFn} {k : Str} {v inst : Json}
     {kvs : List (Str × Json)} {e : Err} {top : Str} {sc : List Str}
-    (hws : WF (.obj kvs) = true) (hkv : Json.lookup k kvs = some v)
+    (hws : WF (.obj kvs) = true) (hrp : refsProper (.obj kvs) = true) (hkv : Json.lookup k kvs = some v)
     (hh : hopOf env base top kvs = none)
     (hty : ObjTyped cfg) (hif : f = .if_ ↔ k = skey "if") (hkref : k ≠ skey "$ref")
     (hcont : containerKw k = isCF f)
-    (hrec : ∀ x sub b σ, WF sub = true → PK env base sc σ → ∀ e0 ∈ (rec x sub b σ).errs,
-      schemaLocatedR env d base (baseIn env d top kvs) sub [] e0)
+    (hrec : ∀ x sub b σ, WF sub = true → refsProper sub = true → PK env base sc σ →
+      ∀ e0 ∈ (rec x sub b σ).errs, schemaLocatedR env d base (baseIn env d top kvs) sub [] e0)
     (h : PVS f cfg rec (PK env base sc) v (.obj kvs) e) :
     schemaLocatedR env d base top (.obj kvs) [] (stamp k v inst (.obj kvs) e) := by
   have hwv : WF v = true := by
     simp only [WF, Bool.and_eq_true] at hws; exact WF_lookup hws.2 hkv
+  have hrv : refsProper v = true := by
+    simp only [refsProper] at hrp; exact refsProper_lookup hrp hkv
   cases h with
   | fresh t args ctx cause hF hctx =>
     have hk1 : k ≠ skey "if" := fun h => hF (hif.mpr h)
@@ -907,7 +932,7 @@ theorem schemaR_of_prov {rec : Rec} {cfg : Cfg} {f : KwFn} {k : Str} {v inst : J
       intro c hc
       obtain ⟨p, q, x, sub, b, st, e0, hj, hR, he0, rfl⟩ := hctx c hc
       rcases hR hwv hty with ⟨_, hp, hq⟩ | ⟨hf, _⟩
-      · have h0 := hrec x sub b st (WF_ptrGet hwv hp) hj e0 he0
+      · have h0 := hrec x sub b st (WF_ptrGet hwv hp) (refsProper_ptrGet hrv hp) hj e0 he0
         exact schemaLocatedR_of_desc (q := q.toList) h0
           (lift_key hh hkv (inOK_of_srel hcont hp hq)) (dmap_info ..) (dmap_context ..)
           (dmap_schemaPath ..)
@@ -923,7 +948,7 @@ theorem schemaR_of_prov {rec : Rec} {cfg : Cfg} {f : KwFn} {k : Str} {v inst : J
     obtain ⟨p, q, x, sub, b, st, e0, hj, hR, he0, rfl⟩ := hd
     rcases hR hwv hty with ⟨hf, hp, hq⟩ | ⟨hf, k', rfl, hck', hk'⟩
     · have hk1 : k ≠ skey "if" := fun h => hf (hif.mpr h)
-      have h0 := hrec x sub b st (WF_ptrGet hwv hp) hj e0 he0
+      have h0 := hrec x sub b st (WF_ptrGet hwv hp) (refsProper_ptrGet hrv hp) hj e0 he0
       have hi0 := schemaLocatedR_info h0
       refine schemaLocatedR_of_desc (pre := []) (q := .key k :: q.toList) h0
         (lift_key hh hkv (inOK_of_srel hcont hp hq)) ?_ ?_ ?_
@@ -935,7 +960,9 @@ theorem schemaR_of_prov {rec : Rec} {cfg : Cfg} {f : KwFn} {k : Str} {v inst : J
       have hk'' : Json.lookup k' kvs = some sub := by simpa [Json.get?] using hk'
       have hwsub : WF sub = true := by
         simp only [WF, Bool.and_eq_true] at hws; exact WF_lookup hws.2 hk''
-      have h0 := hrec x sub b st hwsub hj e0 he0
+      have hrsub : refsProper sub = true := by
+        simp only [refsProper] at hrp; exact refsProper_lookup hrp hk''
+      have h0 := hrec x sub b st hwsub hrsub hj e0 he0
       have hi0 := schemaLocatedR_info h0
       refine schemaLocatedR_of_desc (pre := []) (q := [.key k']) h0
         (lift_key (q := none) hh hk'' ⟨rfl, .inl hck'⟩) ?_ ?_ ?_
@@ -1170,6 +1197,62 @@ theorem wf_designated {env : Env} {base : List (Str × Json)} (hw : WorldOK env 
                 cases h
                 exact WF_ptrWalk _ (hw.wfFetch 0 u doc hfe) hr
 
+/-- no document of the world — supplied by the caller or retrieved — has a `$ref` member with a
+    falsy scalar value (`None`, `0`, `0.0`, `false`): such a member is followed as the empty
+    reference when the base URI in effect is non-empty (`refReading`), which `Spec.navR` — hopping at
+    STRING references only — does not do -/
+structure RefsProperWorld (env : Env) (base : List (Str × Json)) : Prop where
+  rpBase : ∀ k doc, Json.lookup k base = some doc → refsProper doc = true
+  rpFetch : ∀ n u doc, env.fetch n u = some (some doc) → refsProper doc = true
+
+/-- … then no designated schema has one -/
+theorem rp_designated {env : Env} {base : List (Str × Json)} (hw : RefsProperWorld env base) {top r url : Str}
+    {t : Json} (h : designated env base top r = some (url, t)) : refsProper t = true := by
+  unfold designated at h
+  cases hj : env.urljoin top r with
+  | none => rw [hj] at h; cases h
+  | some url' =>
+    rw [hj] at h
+    dsimp only at h
+    cases hd : env.urldefrag url' with
+    | none => rw [hd] at h; cases h
+    | some p =>
+      obtain ⟨u, frag⟩ := p
+      rw [hd] at h
+      dsimp only at h
+      cases hn : env.urinorm u with
+      | none => rw [hn] at h; cases h
+      | some k =>
+        rw [hn] at h
+        dsimp only at h
+        cases hb : Json.lookup k base with
+        | some doc =>
+          rw [hb] at h
+          dsimp only at h
+          cases hr : resolveFragment doc frag with
+          | none => rw [hr] at h; cases h
+          | some t' =>
+            rw [hr] at h
+            cases h
+            exact refsProper_ptrWalk _ (hw.rpBase k doc hb) hr
+        | none =>
+          rw [hb] at h
+          dsimp only at h
+          cases hfe : env.fetch 0 u with
+          | none => rw [hfe] at h; cases h
+          | some o =>
+            rw [hfe] at h
+            cases o with
+            | none => cases h
+            | some doc =>
+              dsimp only at h
+              cases hr : resolveFragment doc frag with
+              | none => rw [hr] at h; cases h
+              | some t' =>
+                rw [hr] at h
+                cases h
+                exact refsProper_ptrWalk _ (hw.rpFetch 0 u doc hfe) hr
+
 /-! ### one layer of the evaluator, the induction on the fuel -/
 
 section Assembly
@@ -1179,17 +1262,14 @@ variable {env : Env} {d : Draft} {base : List (Str × Json)}
     is located in the schema it was reported under, the base URI in effect being the top of the
     scope stack -/
 def SchemaRecR (env : Env) (d : Draft) (base : List (Str × Json)) (rec : Rec) : Prop :=
-  ∀ x sub sc b σ, WF sub = true → PK env base sc σ → ∀ e ∈ (rec x sub b σ).errs,
+  ∀ x sub sc b σ, WF sub = true → refsProper sub = true → PK env base sc σ → ∀ e ∈ (rec x sub b σ).errs,
     schemaLocatedR env d base (sc.headD []) sub [] e
-
-theorem AllS_kwRef_null {J : RState → Prop} {Q : Err → Prop} (rec : Rec) (inst : Json) :
-    AllS J Q (kwRef env rec .null inst) :=
-  fun _ st hj => ⟨hj, fun _ he => by simp [kwRef] at he⟩
 
 /-- an iteration of the keyword loop of a schema object that is not a reference -/
 theorem schemaR_runKeyword (hf : StableFetchS env) (impl : FmtImpl) (fc : Option FormatChecker)
     {rec : Rec} (hok : RecOK env base rec) (hrec : SchemaRecR env d base rec) (inst : Json)
-    {kvs : List (Str × Json)} (hws : WF (.obj kvs) = true) {top : Str} {sc : List Str}
+    {kvs : List (Str × Json)} (hws : WF (.obj kvs) = true) (hrp : refsProper (.obj kvs) = true)
+    {top : Str} {sc : List Str}
     (hh : hopOf env base top kvs = none)
     (hnull : ∀ r, Json.lookup (skey "$ref") kvs = some r → r = .null)
     (hsc : sc.headD [] = baseIn env d top kvs) {kv : Str × Json} (hkv : kv ∈ kvs) :
@@ -1205,11 +1285,12 @@ theorem schemaR_runKeyword (hf : StableFetchS env) (impl : FmtImpl) (fc : Option
     by_cases hfr : f = .ref
     · subst hfr
       have hk : kv.1 = skey "$ref" := hmem.2 rfl
-      have hv : kv.2 = .null := hnull _ (by rw [← hk]; exact hl)
-      refine AllS_mapErrs (Q' := fun _ => False) ?_ (fun _ h => h.elim)
-      show AllS _ _ (kwRef env rec kv.2 inst)
-      rw [hv]
-      exact AllS_kwRef_null rec inst
+      have hl' : Json.lookup (skey "$ref") kvs = some kv.2 := by rw [← hk]; exact hl
+      have hv : kv.2 = .null := hnull _ hl'
+      -- a `$ref` member with the value `null` is read as the empty reference: excluded by `hrp`
+      have hpr := refsProper_ref hrp hl'
+      rw [hv] at hpr
+      cases hpr
     · refine AllS_mapErrs (provS_applyKw hf impl (d.cfg fc) hok sc f hfr kv.2 inst (.obj kvs)) ?_
       intro e he
       have hne : kv.1 ≠ skey "$ref" := by
@@ -1217,23 +1298,24 @@ theorem schemaR_runKeyword (hf : StableFetchS env) (impl : FmtImpl) (fc : Option
         have hv : kv.2 = .null := hnull _ (by rw [← hk]; exact hl)
         rw [hk, lookupS_ref] at hfk
         exact hfr (Option.some.inj hfk).symm
-      refine schemaR_of_prov hws hl hh (objTyped_draft d fc) hmem.1 hne hcont ?_ he
-      intro x sub b σ hwsub hp e0 he0
+      refine schemaR_of_prov hws hrp hl hh (objTyped_draft d fc) hmem.1 hne hcont ?_ he
+      intro x sub b σ hwsub hrsub hp e0 he0
       rw [← hsc]
-      exact hrec x sub sc b σ hwsub hp e0 he0
+      exact hrec x sub sc b σ hwsub hrsub hp e0 he0
 
 /-- the keyword loop of a schema object that is not a reference, run from a state whose top of
     stack is the base URI in effect inside the object -/
 theorem schemaR_loop (hf : StableFetchS env) (impl : FmtImpl) (fc : Option FormatChecker)
     {rec : Rec} (hok : RecOK env base rec) (hrec : SchemaRecR env d base rec) (inst : Json)
-    {kvs : List (Str × Json)} (hws : WF (.obj kvs) = true) {top : Str} {sc : List Str}
+    {kvs : List (Str × Json)} (hws : WF (.obj kvs) = true) (hrp : refsProper (.obj kvs) = true)
+    {top : Str} {sc : List Str}
     (hh : hopOf env base top kvs = none)
     (hnull : ∀ r, Json.lookup (skey "$ref") kvs = some r → r = .null)
     (hsc : sc.headD [] = baseIn env d top kvs) (b : Option Nat) {σ : RState}
     (hp : PK env base sc σ) :
     ∀ e ∈ (seqG (runKeyword env impl (d.cfg fc) rec inst (.obj kvs)) kvs b σ).errs,
       schemaLocatedR env d base top (.obj kvs) [] e :=
-  ((AllS_seqG (fun _ hkv => schemaR_runKeyword hf impl fc hok hrec inst hws hh hnull hsc hkv))
+  ((AllS_seqG (fun _ hkv => schemaR_runKeyword hf impl fc hok hrec inst hws hrp hh hnull hsc hkv))
     b σ hp).2
 
 theorem schemaLocatedR_falseErr (top : Str) (inst : Json) :
@@ -1241,11 +1323,12 @@ theorem schemaLocatedR_falseErr (top : Str) (inst : Json) :
   simp only [falseErr, schemaLocatedR, schemaLocatedRList, List.nil_append, and_true]
   exact ⟨1, rfl⟩
 
-theorem schemaR_evalStep (hf : StableFetchS env) (hw : WorldOK env base) (impl : FmtImpl)
+theorem schemaR_evalStep (hf : StableFetchS env) (hw : WorldOK env base) (hrw : RefsProperWorld env base)
+    (impl : FmtImpl)
     (fc : Option FormatChecker) {rec : Rec} (hok : RecOK env base rec)
     (hrec : SchemaRecR env d base rec) :
     SchemaRecR env d base (evalStep env impl (d.cfg fc) rec) := by
-  intro x sub sc b σ hws hp
+  intro x sub sc b σ hws hrp hp
   have htop : σ.top = sc.headD [] := hp.top
   cases sub with
   | bool bb =>
@@ -1272,7 +1355,9 @@ theorem schemaR_evalStep (hf : StableFetchS env) (hw : WorldOK env base) (impl :
       dsimp only [withScopeOpt] at he
       unfold schemaBody at he
       rw [href] at he
-      have hcrash : ∀ (ref : Json), (∀ r, ref ≠ .str r) → ref ≠ .null →
+      -- no falsy scalar `$ref` (`hrp`): a non-string `$ref` makes the resolution raise `TypeError`
+      have hpr : properRef ref = true := refsProper_ref hrp href
+      have hcrash : ∀ (ref : Json), (∀ r, ref ≠ .str r) → properRef ref = true →
           ∀ e, e ∉ (runKeyword env impl (d.cfg fc) rec x (.obj kvs) (skey "$ref", ref) b σ).errs := by
         intro ref h1 h2 e he
         unfold runKeyword at he
@@ -1281,17 +1366,10 @@ theorem schemaR_evalStep (hf : StableFetchS env) (hw : WorldOK env base) (impl :
         dsimp only at he
         unfold mapErrs applyKw at he
         dsimp only at he
-        cases ref with
-        | str r => exact h1 r rfl
-        | null => exact h2 rfl
-        | _ => simp [kwRef] at he
+        rw [kwRef_typeError (refReading_of_proper h1 h2)] at he
+        simp [stopG] at he
       cases ref with
-      | null =>
-        dsimp only at he
-        have hh : hopOf env base (sc.headD []) kvs = none := by unfold hopOf; rw [hrefJ]
-        have hb : baseIn env d (sc.headD []) kvs = sc.headD [] := by unfold baseIn; rw [hrefJ]
-        exact schemaR_loop hf impl fc hok hrec x hws hh
-          (fun r hr => by rw [href] at hr; exact (Option.some.inj hr).symm) hb.symm b hp e he
+      | null => cases hpr
       | str r =>
         dsimp only at he
         unfold runKeyword at he
@@ -1303,8 +1381,7 @@ theorem schemaR_evalStep (hf : StableFetchS env) (hw : WorldOK env base) (impl :
         obtain ⟨e0, he0, rfl⟩ := List.mem_map.mp he
         obtain ⟨hsim, hk1⟩ := resolve_know hf hp.1 r
         have hsc1 := resolve_scopes env r σ
-        unfold kwRef at he0
-        dsimp only at he0
+        rw [kwRef_str] at he0
         rcases hres : resolve env r σ with ⟨res, st1⟩
         rw [hres] at he0 hsim hk1 hsc1
         dsimp only at he0 hsim hk1 hsc1
@@ -1326,17 +1403,17 @@ theorem schemaR_evalStep (hf : StableFetchS env) (hw : WorldOK env base) (impl :
           dsimp only at he0
           have hp' : PK env base (url :: sc) { st1 with scopes := url :: st1.scopes } :=
             ⟨hk1.setScopes _, by dsimp only; rw [hsc1, hp.2]⟩
-          have h0 := hrec x target (url :: sc) b _ (wf_designated hw hdes) hp' e0 he0
+          have h0 := hrec x target (url :: sc) b _ (wf_designated hw hdes) (rp_designated hrw hdes) hp' e0 he0
           have hh : hopOf env base (sc.headD []) kvs = some (url, target) := by
             unfold hopOf; rw [hrefJ]; exact hdes
           exact schemaLocatedR_of_desc (pre := []) (q := []) h0 (lift_hop hh)
             (stamp_info_set (schemaLocatedR_info h0)) (stamp_context ..) (stamp_schemaPath_ref ..)
         | raise _ => simp at he0
         | miss _ => simp at he0
-      | bool v' => dsimp only at he; exact absurd he (hcrash (.bool v') nofun nofun e)
-      | num v' => dsimp only at he; exact absurd he (hcrash (.num v') nofun nofun e)
-      | arr v' => dsimp only at he; exact absurd he (hcrash (.arr v') nofun nofun e)
-      | obj v' => dsimp only at he; exact absurd he (hcrash (.obj v') nofun nofun e)
+      | bool v' => dsimp only at he; exact absurd he (hcrash (.bool v') nofun hpr e)
+      | num v' => dsimp only at he; exact absurd he (hcrash (.num v') nofun hpr e)
+      | arr v' => dsimp only at he; exact absurd he (hcrash (.arr v') nofun hpr e)
+      | obj v' => dsimp only at he; exact absurd he (hcrash (.obj v') nofun hpr e)
     | none =>
       have hrefJ : lookupJ "$ref" kvs = none := href
       have hh : hopOf env base (sc.headD []) kvs = none := by unfold hopOf; rw [hrefJ]
@@ -1359,7 +1436,7 @@ theorem schemaR_evalStep (hf : StableFetchS env) (hw : WorldOK env base) (impl :
           dsimp only [withScopeOpt] at he
           have hb' : sc.headD [] = baseIn env d (sc.headD []) kvs := by
             rw [hb]; unfold baseInside; rw [hid]
-          exact schemaR_loop hf impl fc hok hrec x hws hh hnull hb' b hp e he
+          exact schemaR_loop hf impl fc hok hrec x hws hrp hh hnull hb' b hp e he
         | some id =>
           rw [hscope, hid] at he
           dsimp only [withScopeOpt] at he
@@ -1374,14 +1451,14 @@ theorem schemaR_evalStep (hf : StableFetchS env) (hw : WorldOK env base) (impl :
               ⟨hp.1.setScopes _, by dsimp only; rw [hp.2]⟩
             have hb' : (u :: sc).headD [] = baseIn env d (sc.headD []) kvs := by
               rw [hb]; unfold baseInside; rw [hid]; dsimp only; rw [hu]; rfl
-            exact schemaR_loop hf impl fc hok hrec x hws hh hnull hb' b hp' e he
+            exact schemaR_loop hf impl fc hok hrec x hws hrp hh hnull hb' b hp' e he
 
-theorem schemaR_eval (hf : StableFetchS env) (hw : WorldOK env base) (impl : FmtImpl)
-    (fc : Option FormatChecker) (fuel : Nat) :
+theorem schemaR_eval (hf : StableFetchS env) (hw : WorldOK env base) (hrw : RefsProperWorld env base)
+    (impl : FmtImpl) (fc : Option FormatChecker) (fuel : Nat) :
     SchemaRecR env d base (eval env impl (d.cfg fc) fuel) := by
   induction fuel with
-  | zero => intro _ _ _ _ _ _ _ e he; simp [eval, stopG] at he
-  | succ n ih => exact schemaR_evalStep hf hw impl fc (recOK_eval hf impl _ n) ih
+  | zero => intro _ _ _ _ _ _ _ _ e he; simp [eval, stopG] at he
+  | succ n ih => exact schemaR_evalStep hf hw hrw impl fc (recOK_eval hf impl _ n) ih
 
 end Assembly
 
@@ -1596,6 +1673,116 @@ theorem refute {d : Draft} {i s : Json} {P : List PathElem}
     cases hv
 
 end Given
+
+/-! ### a `$ref` with a falsy scalar value is followed, as the empty reference
+
+Drafts 3 and 4 do not constrain `$ref`, and `urljoin(base, url)` — for a non-empty base — continues with
+`if not url: return base`: `{"$ref": 0}` (or `None`, `0.0`, `false`) is evaluated as `{"$ref": ""}` — the
+document under the base URI in effect — when that base is non-empty (`refReading`), while `Spec.navR`
+hops at STRING references only. So `schema_located_refs` needs the proviso `refsProper` (no such
+member in the schema, `RefsProperWorld`: nor in the world). -/
+
+namespace Falsy
+
+/-- every string reference is a proper reference: C03's proviso `Spec.refsAreStrings` implies `refsProper` -/
+theorem refsProper_of_refsAreStrings : ∀ (j : Json), refsAreStrings j = true → refsProper j = true
+  | .null, _ | .bool _, _ | .num _, _ | .str _, _ => rfl
+  | .arr xs, h => by
+    simp only [refsAreStrings] at h
+    simp only [refsProper]
+    exact list xs h
+  | .obj kvs, h => by
+    simp only [refsAreStrings] at h
+    simp only [refsProper]
+    exact kvs' kvs h
+where
+  list : ∀ (xs : List Json), refsAreStrings.refsAreStringsList xs = true → refsProperList xs = true
+    | [], _ => rfl
+    | x :: xs, h => by
+      simp only [refsAreStrings.refsAreStringsList, Bool.and_eq_true] at h
+      simp only [refsProperList, Bool.and_eq_true]
+      exact ⟨refsProper_of_refsAreStrings x h.1, list xs h.2⟩
+  kvs' : ∀ (kvs : List (Str × Json)), refsAreStrings.refsAreStringsKvs kvs = true → refsProperKvs kvs = true
+    | [], _ => rfl
+    | (k, v) :: rest, h => by
+      simp only [refsAreStrings.refsAreStringsKvs, Bool.and_eq_true] at h
+      simp only [refsProperKvs, Bool.and_eq_true]
+      refine ⟨⟨?_, refsProper_of_refsAreStrings v h.1.2⟩, kvs' rest h.2⟩
+      have h1 := h.1.1
+      have e : ks "$ref" = "$ref".toList := rfl
+      rw [e] at h1
+      split
+      · rename_i hk
+        rw [if_pos hk] at h1
+        cases v <;> first | rfl | cases h1
+      · rfl
+
+theorem refsProperWorld (doc : Json) (h : refsProper doc = true) : RefsProperWorld Ex.env [([], doc)] where
+  rpBase := by
+    intro k d hl
+    unfold Json.lookup at hl
+    split at hl
+    · cases hl; exact h
+    · cases hl
+  rpFetch := fun _ _ _ hfe => nomatch hfe
+
+theorem rp_schema : refsProper Ex.schema = true := by decide +kernel
+
+/-- Draft 4 (whose metaschema does not describe `$ref`): `{"id": "urn:root", "type": "object",
+    "properties": {"x": {"$ref": 0}}}` — the root identifier makes the base URI in effect non-empty -/
+def schema4 : Json :=
+  .obj [(skey "id", .str (skey "urn:root")), (skey "type", .str (skey "object")),
+        (skey "properties", .obj [(skey "x", .obj [(skey "$ref", .num (.int 0))])])]
+
+theorem wf_schema4 : WF schema4 = true := by decide +kernel
+
+/-- `{"x": 1}`: the property `x` is validated against the document under the base URI — the root
+    schema itself — which `1` violates: one error, keyword `type`, schema path `properties/x/type` -/
+theorem paths4 :
+    (eval Ex.env Ex.impl (Draft.d4.cfg none) 3 Ex.inst schema4 none (Ex.st schema4)).errs.map
+        (fun e => (e.schemaPath, e.info.bind (·.kw)))
+      = [([.key (skey "properties"), .key (skey "x"), .key (skey "type")], some (skey "type"))] := by
+  decide +kernel
+
+/-- the walk does not hop at `{"$ref": 0}`, which has no member `type` -/
+theorem nav4 (n : Nat) : Spec.navR Ex.env .d4 [([], schema4)] false n [] schema4
+    [.key (skey "properties"), .key (skey "x"), .key (skey "type")] = none := by
+  match n with
+  | 0 => rfl
+  | 1 => rfl
+  | n + 2 => rfl
+
+/-- a run with exactly one error, which carries a keyword other than `required` and whose schema
+    path the walk cannot follow, refutes the claim about that run -/
+theorem refute {d : Draft} {i s : Json} {P : List PathElem} {k : Str} (hk : k ≠ kReq)
+    (hp : (eval Ex.env Ex.impl (d.cfg none) 3 i s none (Ex.st s)).errs.map
+        (fun e => (e.schemaPath, e.info.bind (·.kw))) = [(P, some k)])
+    (hn : ∀ n, Spec.navR Ex.env d [([], s)] false n [] s P = none) :
+    ¬ ∀ e ∈ (eval Ex.env Ex.impl (d.cfg none) 3 i s none (Ex.st s)).errs,
+        Spec.schemaLocatedR Ex.env d [([], s)] (Ex.st s).top s [] e := by
+  intro h
+  cases hes : (eval Ex.env Ex.impl (d.cfg none) 3 i s none (Ex.st s)).errs with
+  | nil => rw [hes] at hp; cases hp
+  | cons e es =>
+    rw [hes] at hp h
+    simp only [List.map_cons, List.cons.injEq, Prod.mk.injEq] at hp
+    have he := h e (List.mem_cons_self ..)
+    obtain ⟨msg, info, path, sp, ctx, c⟩ := e
+    cases info with
+    | none => simp [Spec.schemaLocatedR] at he
+    | some m =>
+      obtain ⟨kw, kwVal, inst, schema⟩ := m
+      obtain ⟨⟨hsp, hkw⟩, _⟩ := hp
+      dsimp only [Err.schemaPath, Err.info, Option.bind] at hsp hkw
+      subst hsp hkw
+      simp only [Spec.schemaLocatedR, List.nil_append] at he
+      have : (Ex.st s).top = [] := rfl
+      rw [this] at he
+      rcases he.1.2.1 with ⟨n, hv⟩ | ⟨hk', _⟩
+      · rw [hn n] at hv; cases hv
+      · exact hk hk'
+
+end Falsy
 
 end LocatedRef
 end JS
